@@ -101,6 +101,10 @@ pub fn install_panic_hook() {
             .location()
             .map(|l| format!("{}:{}", l.file(), l.line()))
             .unwrap_or_default();
+        if std::thread::current().name() == Some("main") {
+            // nothing catches a panic of the main thread: it is a harness error, show it
+            eprintln!("HARNESS-ERROR: main thread panicked: {} @ {}", msg, loc);
+        }
         LAST_PANIC.with(|p| *p.borrow_mut() = format!("{} @ {}", msg, loc));
     }));
 }
